@@ -926,6 +926,8 @@ def oracle(case, res):
             n2, k = case["n2"], case["k"]
             nblocks = n2 // n + (1 if case["yor"] and n2 % n else 0)
             expect = (n * (n2 // n) + (n2 % n if case["yor"] else 0)) if case["kind"] == "map" else k * nblocks
+            if _code(case.get("post")) == 2:
+                expect *= 2
             if len(res["r2"]) != expect and not case.get("kpar"):
                 return (f"the same adapter run on a second flow of {n2} values (bufsize {n}, yield_on_remainder "
                         f"{case['yor']}) yields {len(res['r2'])} results {res['r2']}, its blocks give {expect}")
@@ -939,8 +941,9 @@ def oracle(case, res):
     if op == "ops":
         return _oracle_ops(case, res, flow)
     if op == "split":
-        if res.get("types") != ["fill_request"]:
-            return f"Split classified the branch as {res.get('types')}"
+        types = ["sequence", "fill_request", "fill_compute"] if case.get("form") == "sib" else ["fill_request"]
+        if res.get("types") != types:
+            return f"Split classified the branches as {res.get('types')}"
         outs = res["r"]
         if case.get("form") == "seq3":
             # (f, FillRequest(...), g): the adapter is filled with what f makes of the values; its blocks are blocks of
@@ -1212,7 +1215,7 @@ def _dimension_cases(rng, count):
         if rng.random() < 0.15:
             c["fbuf"] = True
         if (k == 1 and not mut and not c.get("kpar") and kind not in ("map", "frseq") and rng.random() < 0.2
-                and not (buf in ("bo", "both", "none") and op in ("ops", "split"))):
+                and c.get("form") != "seq3" and not (buf in ("bo", "both", "none") and op in ("ops", "split"))):
             # results that are the element's live state; not with buffer_output under fill/request (ASSUMPTIONS)
             c["alias"] = True
         if rng.random() < 0.3:
